@@ -34,6 +34,18 @@ CHECKS = {
              "Outside: toml text layer, syn token parsing around verify_regex. " + BASE_NOTE),
 }
 
+CHECKS["C19"] = dict(
+    text="Writer half only. Bounded model checking from MIR of mapped, line_mapped, tee, MappedWrite::{new, write, flush, unwrap, "
+         "map_and_write_current_buffer}, Drop for MappedWrite, TeeWrite::{write, flush} and mappers::add_prefix: input of up to 5 (quick) / 7 "
+         "(thorough) arbitrary bytes with an arbitrary marker byte, every way of cutting it into <= 3 write calls (empty writes included), "
+         "ended by drop or unwrap; the solver decides for every marker pattern consistent with a path that the inner writer received exactly "
+         "map(segment) for each marker-terminated segment plus the non-empty remainder (tee: both targets == input). The sub-process "
+         "streaming half (spawn/output_and_write_streams: two OS pipes, two copier threads) is NOT covered: concurrency and pipes are out of "
+         "reach of this sequential MIR executor and of Kani; no claim is made about deadlock freedom or stream completeness.",
+    design_ref="DESIGN.md §5 C19, §6",
+    technique="symbolic execution of rustc MIR (mirsym) incl. Drop glue + SMT (z3) with solver-enumerated marker patterns; witness replay on the real crate",
+    note="Inner writer = in-memory sink that never fails. Streaming half not applicable (see level text). " + BASE_NOTE)
+
 NOT_YET = "check not built yet in this round (see DESIGN.md §9 build order); no claim is made"
 NOT_APPLICABLE = {}
 ALL = [f"C{i:02d}" for i in range(1, 21)]
